@@ -1,6 +1,7 @@
 """C14 — every union in the protocol can be parsed in each of its alternatives."""
 from __future__ import annotations
 
+import os
 from typing import List
 
 from lib.pylive import Live
@@ -22,6 +23,42 @@ def main(argv: List[str]) -> int:
     cov = U.report_unions(run, live, mm, ua, {"missing", "O0", "O1", "cover"}, what)
     if not ua.sites:
         run.crash("no union position discovered")
+    # encoder-vs-CPython differential (guard against an unsound encoding): the path the probe-tree encoding predicts for a
+    # concrete input must be the path the real handler takes.  A disagreement is a checker error (exit 3), not a violation.
+    from lib.unions import differential, site_inputs
+
+    diff_n = 0
+    diff_bad = []
+    for r in ua.results:
+        if r.unsupported:
+            continue
+        fam = site_inputs(mm, r.site.tau, cap=60 if run.tier == "quick" else 400)
+        extra = [None, True, 5, "x", 1.5, [], {}, {"id": "1"}, [{"x": 1}], {"kind": "zzz"}]
+        k, bad = differential(live, mm, r, fam + extra)
+        diff_n += k
+        diff_bad += bad
+    for b in diff_bad[:5]:
+        run.crash(f"encoder disagrees with CPython for {b['handler']} on {str(b['input'])[:160]}: predicted {b['predicted']}, real handler gives {b['native']}")
+    # thorough: cattrs picks the discriminating attribute of its default disambiguator by iterating a set; re-verify the
+    # decision lists produced under other hash seeds (the whole check is re-run in a subprocess per seed)
+    seeds_checked = []
+    if run.tier == "thorough" and os.environ.get("VERIF_C14_INNER") != "1":
+        import subprocess
+        import tempfile
+
+        for sd in ("1", "2", "3", "11"):
+            scr = tempfile.mkdtemp(prefix="verif-c14-seed-")
+            env = dict(os.environ, PYTHONHASHSEED=sd, VERIF_C14_INNER="1", VERIF_EVIDENCE_DIR=os.path.join(scr, "ev"), VERIF_REPLAY_DIR=os.path.join(scr, "rp"), VERIF_TIER="quick")
+            p = subprocess.run([os.path.join(os.path.dirname(os.path.dirname(os.path.abspath(__file__))), "bin", "check"), "C14", "--tier", "quick"], capture_output=True, text=True, env=env)
+            seeds_checked.append({"PYTHONHASHSEED": sd, "exit": p.returncode})
+            if p.returncode == 1:
+                for ln in [l for l in p.stdout.splitlines() if l.startswith("  obligation: ")][:3]:
+                    run.violation(f"hashseed{sd}:" + ln.split("obligation: ", 1)[1], f"under PYTHONHASHSEED={sd} the union handlers (cattrs default disambiguator choice) violate: {ln.strip()}", {"hashseed": sd, "output": p.stdout[-1500:]}, True)
+            elif p.returncode != 0:
+                run.crash(f"C14 under PYTHONHASHSEED={sd} exits {p.returncode}: {p.stdout[-300:]}")
+            import shutil
+
+            shutil.rmtree(scr, ignore_errors=True)
     run.assume(*U.ASSUMPTIONS)
     occurrences = sum(len(s.where) for s in ua.sites)
     return run.finish(
@@ -36,6 +73,9 @@ def main(argv: List[str]) -> int:
             "union_positions": occurrences,
             "distinct_handler_type_sites": len(ua.sites),
             "handlers_under_contract": cov["functions"],
+            "hash_seeds_reverified": seeds_checked,
+            "encoder_vs_cpython_inputs": diff_n,
+            "encoder_vs_cpython_disagreements": len(diff_bad),
             "outside_subset": cov["outside"],
             "cross_check": cov.get("cross_check"),
             "samples": cov["samples"],
